@@ -278,6 +278,10 @@ def f_cyclic_constraints():
   ind = ("up_i", "comb", [("=", ref("out"), ref("in_"))])
   yield "cyclic:2", irgen.comp("Cy2", sig2, blocks=[a, b, ind], constraints=[(("U", "up_a"), ("U", "up_b")), (("U", "up_b"), ("U", "up_a"))])
   yield "cyclic:3", irgen.comp("Cy3", sig2, blocks=[a, b, ind], constraints=[(("U", "up_a"), ("U", "up_b")), (("U", "up_b"), ("U", "up_i")), (("U", "up_i"), ("U", "up_a"))])
+  # contradictory ORDERING constraints in which one edge mentions a signal: no value flows round the cycle, iterating cannot help
+  yield "cyclic:WR-U+U-U", irgen.comp("Cy4", sig2, blocks=[a, b, ind], constraints=[(("WR", ref("A")), ("U", "up_b")), (("U", "up_b"), ("U", "up_a"))])
+  r = ("up_r", "comb", [("=", ref("Bw"), ref("A"))])
+  yield "cyclic:data+U-U+U-U", irgen.comp("Cy5", sig2, blocks=[a, r, ind], constraints=[(("U", "up_r"), ("U", "up_i")), (("U", "up_i"), ("U", "up_a"))])
 
 
 def check_cyclic(name, d, acc):
